@@ -210,6 +210,10 @@ func (sc *c01Scenario) oracleC01(history []string) {
 		if !vp.up {
 			continue
 		}
+		if vp.spec.sendMax > 0 {
+			sc.oracleAddPath(vp, history)
+			continue
+		}
 		for i := range c01Prefixes {
 			key := fmt.Sprintf("%s#0", c01Prefixes[i])
 			var best *table.Path
@@ -239,6 +243,57 @@ func (sc *c01Scenario) oracleC01(history []string) {
 				cls := fmt.Sprintf("view!=fresh-export:target=%s,held-src=%s,best-src=%s,want=%v", vp.spec.kind, heldSrc, c01SrcKind(w, best), want != 0)
 				sc.o.fail(cls, map[string]any{"peer": vp.spec.addr.String(), "prefix": c01Prefixes[i], "holds_marker": have, "fresh_export_marker": want, "history": append([]string{}, history...)})
 			}
+		}
+	}
+}
+
+// oracleAddPath: toward a peer with ADD-PATH send, per destination: only eligible paths are
+// advertised (eligible = passes the real filterpath with old = nil), exactly min(send-max,
+// #eligible) of them, each under the path identifier the Loc-RIB assigned to it (stable).
+func (sc *c01Scenario) oracleAddPath(vp *vwPeer, history []string) {
+	w := sc.w
+	for i := range c01Prefixes {
+		eligible := map[uint32]uint32{} // marker -> local id
+		for _, p := range w.s.globalRib.GetPathList(table.GLOBAL_RIB_NAME, 0, []bgp.Family{bgp.RF_IPv4_UC}) {
+			if p.GetNlri().String() != c01Prefixes[i] {
+				continue
+			}
+			if e := w.s.filterpath(vp.p, p, nil); e != nil && !e.IsWithdraw {
+				eligible[vwMarker(p.GetPathAttrs())] = p.LocalID()
+			}
+		}
+		held := map[uint32]uint32{} // marker -> advertised id
+		ids := map[uint32]bool{}
+		for k, h := range vp.view {
+			parts := strings.Split(k, "#")
+			if parts[0] != c01Prefixes[i] {
+				continue
+			}
+			id := uint32(0)
+			fmt.Sscan(parts[1], &id)
+			held[h.marker] = id
+			ids[id] = true
+		}
+		det := map[string]any{"peer": vp.spec.addr.String(), "send_max": vp.spec.sendMax, "prefix": c01Prefixes[i], "eligible": fmt.Sprint(eligible), "held": fmt.Sprint(held), "history": append([]string{}, history...)}
+		for m, id := range held {
+			lid, ok := eligible[m]
+			if !ok {
+				sc.o.fail("addpath:ineligible-or-gone-route-advertised", det)
+			} else if lid != id {
+				sc.o.fail("addpath:path-id-not-stable", det)
+			}
+		}
+		want := len(eligible)
+		if want > int(vp.spec.sendMax) {
+			want = int(vp.spec.sendMax)
+		}
+		if len(held) > int(vp.spec.sendMax) {
+			sc.o.fail("addpath:more-than-send-max", det)
+		} else if len(held) < want {
+			sc.o.fail("addpath:eligible-route-missing", det)
+		}
+		if len(ids) != len(held) {
+			sc.o.fail("addpath:two-routes-one-id", det)
 		}
 	}
 }
@@ -309,7 +364,7 @@ func (sc *c01Scenario) oracleC02(history []string) {
 	}
 }
 
-func c01Run(t *testing.T, o *vOut, r *vRand, nOps int, idx int) {
+func c01Run(t *testing.T, o *vOut, r *vRand, nOps int, idx int, addPathMode bool) {
 	w := newVWorld(t, 65000, "10.255.0.1")
 	defer w.stop()
 	sc := &c01Scenario{w: w, o: o, r: r}
@@ -335,9 +390,19 @@ func c01Run(t *testing.T, o *vOut, r *vRand, nOps int, idx int) {
 				sp.rid, sp.as = prev.rid, prev.as
 			}
 		}
+		if addPathMode && r.chance(35) {
+			sp.sendMax = uint8(1 + r.intn(3))
+		}
+		if addPathMode && r.chance(35) {
+			sp.addPathRx = true
+		}
 		w.addPeer(sp)
 		sc.latest = append(sc.latest, map[string]*c01Route{})
-		peerLines = append(peerLines, fmt.Sprintf("peer %d %d %d %d %d 0 0 %d", i, c01Kind(k), sp.as, c01U32(sp.rid), c01U32(sp.addr), sp.allowOwnAs))
+		rx := 0
+		if sp.addPathRx {
+			rx = 1
+		}
+		peerLines = append(peerLines, fmt.Sprintf("peer %d %d %d %d %d %d %d %d", i, c01Kind(k), sp.as, c01U32(sp.rid), c01U32(sp.addr), sp.sendMax, rx, sp.allowOwnAs))
 		o.op("%s", peerLines[len(peerLines)-1])
 		o.stat("peer_kind_"+k, 1)
 	}
@@ -359,7 +424,7 @@ func c01Run(t *testing.T, o *vOut, r *vRand, nOps int, idx int) {
 			w.flush(vp)
 		}
 		for i, vp := range w.peers {
-			if vp.up {
+			if vp.up && vp.spec.sendMax == 0 {
 				o.ask("view"+vp.viewString2(), "view %d", i)
 			}
 			adj := []string{}
@@ -432,6 +497,9 @@ func c01Run(t *testing.T, o *vOut, r *vRand, nOps int, idx int) {
 				continue
 			}
 			pfx, pid := r.intn(len(c01Prefixes)), 0
+			if vp.spec.addPathRx {
+				pid = r.intn(3)
+			}
 			w.recv(vp, bgp.NewBGPUpdateMessage([]bgp.PathNLRI{{NLRI: c01Nlri(pfx), ID: uint32(pid)}}, nil, nil))
 			delete(sc.latest[i], fmt.Sprintf("%d#%d", pfx, pid))
 			note("wd %d %d %d", i, pfx, pid)
@@ -483,7 +551,7 @@ func TestVerifC01(t *testing.T) {
 		n = 2500
 	}
 	for i := 0; i < n; i++ {
-		c01Run(t, o, r, 20+r.intn(60), i)
+		c01Run(t, o, r, 20+r.intn(60), i, i%3 == 2)
 		o.stat("histories", 1)
 	}
 }
